@@ -65,6 +65,9 @@ var c19ParserPairs = []c19Pair{
 	{"keys_and_cert.ReadKeysAndCert", "lease_set.ReadDestinationFromLeaseSet", destPermitted},
 	{"keys_and_cert.ReadKeysAndCert", "router_identity.ReadRouterIdentity", riPermitted},
 	{"destination.ReadDestination", "destination.NewDestinationFromBytes", anyInput},
+	{"destination.ReadDestination", "router_identity.ReadRouterIdentity+AsDestination", func(x []byte) bool { return destPermitted(x) && riPermitted(x) }},
+	{"destination.ReadDestination", "destination.NewDestination(ReadKeysAndCert)", destPermitted},
+	{"router_identity.ReadRouterIdentity", "router_identity.NewRouterIdentityFromKeysAndCert(ReadKeysAndCert)", riPermitted},
 	{"router_identity.ReadRouterIdentity", "router_identity.NewRouterIdentityFromBytes", anyInput},
 	{"lease.ReadLease", "lease.NewLeaseFromBytes", anyInput},
 	{"lease.ReadLease2", "lease.NewLease2FromBytes", anyInput},
@@ -88,23 +91,37 @@ var c19ParserPairs = []c19Pair{
 }
 
 type c19Out struct {
-	ok  bool
-	ser []byte
-	rem []byte
-	pan bool
+	ok      bool
+	ser     []byte
+	rem     []byte
+	pan     bool
+	changed bool // the value's serialisation changed when the buffer it was parsed from was overwritten
 }
 
+// c19Run feeds the entry point a PRIVATE copy of x, records serialisation and remainder, then
+// overwrites that copy and serialises again (history step: callers recycle their buffers).
 func c19Run(p adapt.Parser, x []byte) c19Out {
 	var res adapt.Parsed
-	pan, _ := core.Guard(func() { res = p.Fn(x) })
+	buf := append([]byte(nil), x...)
+	pan, _ := core.Guard(func() { res = p.Fn(buf) })
 	o := c19Out{ok: res.OK, pan: pan}
 	if pan || !res.OK {
 		o.ok = false
 		return o
 	}
-	o.rem = res.Rem
+	o.rem = append([]byte(nil), res.Rem...)
 	if res.Ser != nil {
-		core.Guard(func() { o.ser, _ = res.Ser() })
+		core.Guard(func() {
+			s1, _ := res.Ser()
+			o.ser = append([]byte(nil), s1...)
+		})
+		for i := range buf {
+			buf[i] ^= 0x5a
+		}
+		core.Guard(func() {
+			s2, _ := res.Ser()
+			o.changed = !bytes.Equal(s2, o.ser)
+		})
 	}
 	return o
 }
@@ -136,6 +153,9 @@ func c19Compare(r *core.Run, pr c19Pair, in *Input) {
 	if !bytes.Equal(a.ser, b.ser) {
 		r.Violate(id+"|serialisation", fmt.Sprintf("%s and %s accept the same input but serialise differently (first difference at %d) (%s %s; %s)", pr.A, pr.B, firstDiff(a.ser, b.ser), in.Class, in.Detail, in.Base), cs)
 	}
+	if a.changed != b.changed {
+		r.Violate(id+"|serialisation-after-the-input-was-overwritten", fmt.Sprintf("after the caller overwrites its buffer the value from %s changed=%v, from %s changed=%v: the two entry points no longer give identical serialisations (%s %s; %s)", pr.A, a.changed, pr.B, b.changed, in.Class, in.Detail, in.Base), cs)
+	}
 	if !bytes.Equal(a.rem, b.rem) {
 		r.Violate(id+"|remainder", fmt.Sprintf("%s leaves %d bytes, %s leaves %d bytes (%s %s; %s)", pr.A, len(a.rem), pr.B, len(b.rem), in.Class, in.Detail, in.Base), cs)
 	}
@@ -163,6 +183,9 @@ func c19Signature(r *core.Run, in *Input) {
 	consumed := in.Bytes[:len(in.Bytes)-len(a.rem)]
 	b := c19Run(ex, consumed)
 	r.Evaluations.Add(1)
+	if b.ok && a.changed != b.changed {
+		r.Violate(fmt.Sprintf("C19|signature.ReadSignature~NewSignatureFromBytes|type=%d|serialisation-after-the-input-was-overwritten", t), fmt.Sprintf("after the caller overwrites its buffer: ReadSignature value changed=%v, NewSignatureFromBytes value changed=%v", a.changed, b.changed), in.Case("sig"))
+	}
 	if !b.ok || !bytes.Equal(a.ser, b.ser) {
 		r.Violate(fmt.Sprintf("C19|signature.ReadSignature~NewSignatureFromBytes|type=%d|serialisation", t), fmt.Sprintf("ReadSignature consumed %d bytes; NewSignatureFromBytes on exactly those bytes: ok=%v, equal=%v", len(consumed), b.ok, bytes.Equal(a.ser, b.ser)), in.Case("sig"))
 	}
@@ -362,7 +385,7 @@ func c19Constructors(r *core.Run) {
 }
 
 func runC19(r *core.Run) {
-	r.Rule = "every pair of equivalent entry points on the full C01 input space of its structure (E1 bases at bound 2/3 + operator menu + byte-walk), restricted to the pair's stated domain (declared key types for the type-specific readers, permitted types for the Destination/RouterIdentity wrappers); constructor pairs on the full product of a 21-code menu per axis, 256 certificate types x 8 payloads, every string length 0..300 x 5 character widths, integer boundary values x sizes -1..9; E4: every sequence of <= 4 (thorough 5) CertificateBuilder operations over a 15-operation alphabet (WithType x 5, WithPayload x 4, WithKeyTypes x 4 incl. negative and > 65535, Build, Validate) on a fresh builder against a last-writer-wins reference model, judged after every sequence by the direct constructor on the model's (type, payload) and by 'certificates handed out earlier do not change'. Oracle: same accept/reject, byte-identical serialisation and remainder. non-trivial = distinct inputs both entry points accepted and whose results were compared"
+	r.Rule = "every pair of equivalent entry points on the full C01 input space of its structure (E1 bases at bound 2/3 + operator menu + byte-walk), restricted to the pair's stated domain (declared key types for the type-specific readers, permitted types for the Destination/RouterIdentity wrappers); constructor pairs on the full product of a 21-code menu per axis, 256 certificate types x 8 payloads, every string length 0..300 x 5 character widths, integer boundary values x sizes -1..9; E4: every sequence of <= 4 (thorough 5) CertificateBuilder operations over a 15-operation alphabet (WithType x 5, WithPayload x 4, WithKeyTypes x 4 incl. negative and > 65535, Build, Validate) on a fresh builder against a last-writer-wins reference model, judged after every sequence by the direct constructor on the model's (type, payload) and by 'certificates handed out earlier do not change'. Oracle: same accept/reject, byte-identical serialisation and remainder - also after the caller's buffer has been overwritten. non-trivial = distinct inputs both entry points accepted and whose results were compared"
 	o := enumOpts{BaseBound: 2, MutateBound: 1, Families: []string{"KeysAndCert", "RouterInfo", "LeaseSet", "LeaseSet2", "Certificate", "Mapping", "Lease", "Lease2", "Signature", "Fixed"}}
 	if !r.Quick() {
 		o.BaseBound, o.MutateBound, o.AllCuts = 3, 2, true
